@@ -187,6 +187,19 @@ def corpus():
     song = {0: [E("INS", 1), E("NOTE", 36, 4, 0), E("JUMP", 100)], 6: [E("INS", 7), E("NOTE", 30, 4, 0), E("JUMP", 100)],
             10: pcm.use + [E("NOTE", 12, 4, 0)], 100: [E("NOTE", 40, 2, 2)]}
     out.append((build_request([fm1, ("@7", ["psg", "15", "10"])] + pcm.groups, pcm.extra, song), ["fm", "psg", "pcm", "shared-sub"]))
+    # two PCM instruments on the same wave file with different rate / offset overrides: two headers,
+    # one copy of the sample data; and the same file twice without overrides: one header
+    wname = "c09_same.wav"
+    wtok = "W:%s=%s" % (wname, wav_bytes(40, 9).hex())
+    for tagsets in ([["pcm", wname, "rate=8000"], ["pcm", wname, "rate=16000"]],
+                    [["pcm", wname], ["pcm", wname, "rate=12000"]],
+                    [["pcm", wname], ["pcm", wname]],
+                    [["pcm", wname, "rate=11025"], ["pcm", wname, "rate=11025"], ["pcm", wname, "rate=4000"]]):
+        groups = [("@%d" % (30 + i), t) for i, t in enumerate(tagsets)]
+        evs = []
+        for i in range(len(tagsets)):
+            evs += [E("INS", 30 + i), E("NOTE", 12, 4, 0)]
+        out.append((build_request(groups, [wtok], {10: evs}), ["pcm", "pcm-same-wave"]))
     # duplicate definitions share one entry; unused ones are not emitted
     out.append((build_request([("@1", fm_tokens(1)), ("@2", fm_tokens(1)), ("@3", fm_tokens(2)), ("@m1", ["0>1:10"]), ("@m2", ["0>1:10"]), ("@m3", ["0>2:10"])], [],
                               {12: [E("INS", 2), E("INS", 1), E("PITCH_ENVELOPE", 2), E("PITCH_ENVELOPE", 1), E("NOTE", 36, 6, 0)], 400: [E("NOTE", 1, 1, 0)]}),
